@@ -126,13 +126,19 @@ def run(tier, seed):
         stats["evaluate"] += 1
         if "err" in chk:
             cls = classify(text, chk["err"])
+            if cls is None and "No candidate type has field" in chk["err"] and "select" in text:
+                cls = "C07-select-merge"
             if kind.startswith("witness:"):
                 cls = kind.split(":", 1)[1]
-            elif cls and okm and idx in asts:
-                # the class must also be recognised by the classifier proved about the witnesses (shape/Shape.v known_c07_wide)
+            elif okm and idx in asts and cls != "C07-select-merge":
+                # the list-shape and &&/|| classes must be recognised by the classifier proved about the witnesses
+                # (shape/Shape.v known_c07 / known_c07_wide); the checker words its complaint about list shapes in several ways
                 mo = C.model("shape_c07", ["(%s)" % " ".join(P.stmt_sexp(x) for x in asts[idx])])[0].split()
-                if len(mo) == 4 and mo[1] != "1":
-                    cls = None
+                if len(mo) == 4:
+                    if cls and mo[1] != "1":
+                        cls = None
+                    elif cls is None and mo[0] == "1" and re.search(r"list|List", chk["err"]):
+                        cls = "C07-list-shapes"
             if cls and ck.is_known(cls):
                 stats["rejected_known"][cls] = stats["rejected_known"].get(cls, 0) + 1
                 continue
